@@ -163,12 +163,22 @@ func callsTo(fn *ssa.Function, names ...string) []Site {
 	for _, s := range sitesIn(fn) {
 		n := calleeShort(s.CC)
 		for _, w := range names {
-			if n == w {
+			if n == w || sameButReceiverKind(n, w) {
 				out = append(out, s)
 			}
 		}
 	}
 	return out
+}
+
+// sameButReceiverKind: two method names that differ only in value / pointer receiver: `(T).m` and `(*T).m`
+// (an unexported method's receiver may be changed by a clean-up without any change of behaviour
+// when the method does not modify it).
+func sameButReceiverKind(a, b string) bool {
+	if a == b || !strings.Contains(a, ").") || !strings.Contains(b, ").") {
+		return false
+	}
+	return strings.Replace(a, "(*", "(", 1) == strings.Replace(b, "(*", "(", 1)
 }
 
 // args returns the call's arguments without the receiver.
@@ -985,7 +995,7 @@ func (P *Program) CallersOf(short string) []Site {
 	var out []Site
 	for _, fn := range P.AllSrc {
 		for _, s := range sitesIn(fn) {
-			if calleeShort(s.CC) == short {
+			if n := calleeShort(s.CC); n == short || sameButReceiverKind(n, short) {
 				out = append(out, s)
 			}
 		}
